@@ -859,7 +859,8 @@ Stylesheet::addTemplate(
                         tempString,
                         *xp,
                         xp->getExpression().getCurrentPattern(),
-                        data[i].getDefaultPriority());
+                        data[i].getDefaultPriority(),
+                        i);
 
                 ++m_patternCount;
 
@@ -1217,10 +1218,12 @@ Stylesheet::findTemplate(
                 if ((!haveMode && !haveRuleMode) ||
                     (haveMode && haveRuleMode && ruleMode.equals(mode)))
                 {
-                    const XPath* const  xpath = matchPat->getExpression();
-
-                    XPath::eMatchScore  score =
-                                xpath->getMatchScore(targetNode, *this, executionContext);
+                    // A rule with a union pattern is a set of rules, one for each
+                    // alternative (XSLT 1.0, section 5.5): this entry stands for one
+                    // alternative and is filed with the priority of that alternative,
+                    // so only that alternative is matched.
+                    const XPath::eMatchScore    score =
+                                matchPat->getMatchScore(targetNode, *this, executionContext);
 
                     if(XPath::eMatchScoreNone != score)
                     {
@@ -1267,9 +1270,6 @@ Stylesheet::findTemplate(
 
                 const XalanMatchPatternData**   conflicts = 0;
 
-                const XalanDOMString*           prevPat = 0;
-                const XalanMatchPatternData*    prevMatchPat = 0;
-
                 do
                 {
                     const XalanMatchPatternData*    matchPat = *theCurrentEntry;
@@ -1296,25 +1296,25 @@ Stylesheet::findTemplate(
                         const XalanDOMString*   patterns = matchPat->getPattern();
                         assert(patterns != 0);
 
+                        // Another alternative of the rule that is the best match so
+                        // far cannot change the result, and is not a conflict.
                         if(!patterns->empty() &&
-                           !(prevMatchPat != 0 &&
-                             prevMatchPat->getTemplate() == matchPat->getTemplate()))
+                           !(bestMatchedPattern != 0 &&
+                             bestMatchedPattern->getTemplate() == matchPat->getTemplate()))
                         {
-                            prevPat = patterns;
-                            prevMatchPat = matchPat;
                             matchPatPriority = matchScoreNoneValue;
 
-                            const XPath* const  xpath = matchPat->getExpression();
-
-                            XPath::eMatchScore  score =
-                                        xpath->getMatchScore(targetNode, *this, executionContext);
+                            // Match the alternative this entry stands for, and rank it
+                            // with the priority it is filed under: the priority attribute
+                            // or the default priority of that alternative (XSLT 1.0,
+                            // section 5.5), exactly as the quiet branch does.
+                            const XPath::eMatchScore    score =
+                                        matchPat->getMatchScore(targetNode, *this, executionContext);
 
                             if(XPath::eMatchScoreNone != score)
                             {
-                                const double priorityVal = rule->getPriority();
-                                const double priorityOfRule 
-                                              = (matchScoreNoneValue != priorityVal) 
-                                              ? priorityVal : XPath::getMatchScoreValue(score);
+                                const double priorityOfRule =
+                                                matchPat->getPriorityOrDefault();
 
                                 matchPatPriority = priorityOfRule;
                                 const double priorityOfBestMatched =
@@ -1322,7 +1322,8 @@ Stylesheet::findTemplate(
                                                         bestMatchPatPriority : 
                                                         matchScoreNoneValue;
 
-                                if(priorityOfRule > priorityOfBestMatched)
+                                if(0 == bestMatchedPattern ||
+                                   priorityOfRule > priorityOfBestMatched)
                                 {
                                     nConflicts = 0;
 
